@@ -64,3 +64,68 @@ def report(rep, rule, f, unit, dispatcher, floor):
                           "the handler reinterprets another variant's bytes (for a float constant: the wrong value in the generated "
                           "program)" % (cal, "/".join(labs), dispatcher, bad[0], "/".join(sorted(allowed - set(GENERIC)))))
     rep.floor("single-tag handlers of %s" % dispatcher, n, floor)
+
+
+# --------------------------------------------------------------------------
+# AbSyn handlers, dispatched by AB_SWITCH to <prefix><Tag>(…, AbSyn node, …)
+# --------------------------------------------------------------------------
+import re as _re
+
+AB_GENERIC = ("abHdr", "abGen")
+
+
+def _ab_digest(f, prefixes=("tibup", "titdn", "tisef", "scobind", "abCheck", "abn", "mac")):
+    out = {"handlers": [], "layouts": {}}
+    base = f.unit.split("/")[-1]
+    tags = set()
+    for e in f.raw["enums"]:
+        for n_, _ in e["e"]:
+            if n_.startswith("AB_"):
+                tags.add(n_[3:])
+    for rn, r in f.records.items():
+        if rn.startswith("ab") and rn[2:3].isupper():
+            out["layouts"][rn] = [tuple(x[:2]) for x in r["f"]]
+    pat = _re.compile(r"^(%s)([A-Z][A-Za-z]*)$" % "|".join(prefixes))
+    for name, fn in f.funcs.items():
+        if "body" not in fn or not fn.get("file", "").endswith(base) or not fn["params"]:
+            continue
+        m = pat.match(name)
+        if not m or m.group(2) not in tags:
+            continue
+        ps = [p["n"] for p in fn["params"] if (p.get("t") or "").startswith("AbSyn")]
+        if not ps:
+            continue
+        mem = {}
+        for x in walk(fn["body"]):
+            if x["k"] == "MemberExpr" and x["n"].startswith("ab") and x["n"][2:3].isupper():
+                b = strip(x["c"][0])
+                if b is not None and b["k"] == "DeclRefExpr" and b["n"] == ps[0]:
+                    mem.setdefault(x["n"], x["l"])
+        out["handlers"].append((name, m.group(2), mem, fn["l"]))
+    return out
+
+
+def report_absyn(rep, rule, units, floor):
+    dig = common.map_units(units, _ab_digest, all_trees=True)
+    n = 0
+    for u in sorted(dig):
+        lay = dig[u]["layouts"]
+        for name, tag, mem, line in dig[u]["handlers"]:
+            n += 1
+            own = "ab" + tag
+            bad = []
+            for m_ in sorted(mem):
+                if m_ in AB_GENERIC or m_ == own:
+                    continue
+                if own in lay and m_ in lay and lay[own] == lay[m_]:
+                    rep.note("%s: %s reads its %s node through `%s`, a struct with the identical layout" % (rule, name, tag, m_))
+                    continue
+                bad.append(m_)
+            key = "absyn-variant:%s:%s" % (u, name)
+            if not bad:
+                rep.ok(rule, key, nontrivial=False)
+            else:
+                rep.violation(rule, key, "%s:%d (%s)" % (u, mem[bad[0]], name),
+                              "%s handles %s nodes but reads its node through the member `%s`, which lays the node out as a "
+                              "different kind: a field of the wrong meaning (or beyond the node) is used" % (name, tag, bad[0]))
+    rep.floor("AbSyn handlers named after their node kind", n, floor)
